@@ -3,6 +3,8 @@ import Ktm.Driver
 import Ktm.DriverHB
 import Ktm.DriverTF
 import Ktm.DriverMetrics
+import Ktm.DriverGrid
+import Ktm.DriverRandom
 /-! Dispatcher of the line protocol: every line carries a `suite` field; `op = init` (re)starts the
     suite's state. -/
 open Lean
@@ -12,6 +14,8 @@ inductive DSt
   | none
   | oracle (s : Driver.St)
   | hb (s : DriverHB.St)
+  | grid (s : DriverGrid.St)
+  | rnd (s : DriverRandom.St)
 
 def handleLine (st : DSt) (line : String) : DSt × String :=
   match Json.parse line with
@@ -26,6 +30,14 @@ def handleLine (st : DSt) (line : String) : DSt × String :=
       let cur : Option DriverHB.St := match st with | .hb s => some s | _ => Option.none
       let (s', out) := DriverHB.handle cur j
       (match s' with | some s => .hb s | Option.none => .none, out)
+    | "grid" =>
+      let cur : Option DriverGrid.St := match st with | .grid s => some s | _ => Option.none
+      let (s', out) := DriverGrid.handle cur j
+      (match s' with | some s => .grid s | Option.none => st, out)
+    | "sampling" =>
+      let cur : Option DriverRandom.St := match st with | .rnd s => some s | _ => Option.none
+      let (s', out) := DriverRandom.handle cur j
+      (match s' with | some s => .rnd s | Option.none => st, out)
     | "transforms" => (st, DriverTF.handle j)
     | "metrics" => (st, DriverMetrics.handle j)
     | s => (st, s!"bad-suite {s}")
